@@ -1567,6 +1567,9 @@ func syncTokens(n ast.Node) []string {
 					if ix, ok := t.Lhs[0].(*ast.IndexExpr); ok && exprFull(ix.X) == "es.topicChans" {
 						out = append(out, "topicChans-assign"+under)
 					}
+					if exprFull(t.Lhs[0]) == "es.ctx" {
+						out = append(out, "ctx-assign"+under)
+					}
 				}
 			case *ast.CallExpr:
 				f := exprFull(t.Fun)
@@ -1627,6 +1630,44 @@ func eventSysFacts(p *packages.Package) {
 		})
 	} else {
 		fail("eventLoop not found")
+	}
+	// the context of the event system is shared between the goroutines of all clients' requests and the event loop:
+	// written under the index lock, read only by the event loop (under that lock), and the struct is never copied
+	if fd := findMethod(p, "EventSystem", "WithContext"); fd != nil {
+		facts["eventSysWithContext"] = syncTokens(fd.Body)
+	} else {
+		fail("WithContext not found")
+	}
+	{
+		var valueRecv, ctxUsers []string
+		for _, file := range p.Syntax {
+			if isTest(p.Fset.Position(file.Pos()).Filename) {
+				continue
+			}
+			for _, d := range file.Decls {
+				fd, ok := d.(*ast.FuncDecl)
+				if !ok || fd.Recv == nil || len(fd.Recv.List) == 0 {
+					continue
+				}
+				if id, ok := fd.Recv.List[0].Type.(*ast.Ident); ok && id.Name == "EventSystem" {
+					valueRecv = append(valueRecv, fd.Name.Name)
+				}
+			}
+			walkWithFunc(file, func(n ast.Node, fun string) {
+				if sel, ok := n.(*ast.SelectorExpr); ok && exprFull(sel) == "es.ctx" {
+					if len(ctxUsers) == 0 || ctxUsers[len(ctxUsers)-1] != fun {
+						ctxUsers = append(ctxUsers, fun)
+					}
+				}
+			})
+		}
+		sort.Strings(valueRecv)
+		sort.Strings(ctxUsers)
+		if valueRecv == nil {
+			valueRecv = []string{}
+		}
+		facts["eventSysValueReceivers"] = valueRecv
+		facts["eventSysCtxUsers"] = ctxUsers
 	}
 	if fd := findMethod(p, "EventSystem", "subscribe"); fd != nil {
 		var toks []string
